@@ -1,92 +1,56 @@
-(* The normalised Pauli basis (d = 2) is a complete orthonormal Hermitian basis: the hypotheses
-   of the trace identity / Parseval theorems are satisfiable; concrete refutation witness of
-   "infidelity = - tr K / d^2" on the traceless branch.                                        *)
-From Coq Require Import ZArith Reals List Lra Lia Bool.
-From FF Require Import Base.Ops Inst.RInst Base.RAlg Base.FMat Model.Numeric Model.Decay Model.Cumulant
-     Proofs.Trapz Proofs.Decay Proofs.TraceId.
+(* The concrete Pauli matrices and normalisation 1/sqrt(2^n) satisfy the hypotheses of Proofs/PauliProd.v. *)
+From Coq Require Import String ZArith Reals List Lra Lia Arith Bool.
+From FF Require Import Base.Ops Inst.RInst Base.RAlg Spec.Kron2 Spec.DigitPerm Model.Numeric Proofs.Remap Proofs.PauliProd.
 Import ListNotations.
-Local Open Scope R_scope.
+Local Open Scope nat_scope.
 
-Definition sP : R := / sqrt 2.
-Lemma sP_sq : sP * sP = / 2.
-Proof. unfold sP. rewrite <- Rinv_mult. rewrite sqrt_sqrt by lra. reflexivity. Qed.
+Definition mI : Cx := (0%R, 1%R).
+Definition sigmaP (a : nat) : fmat := fun i j =>
+  match a, i, j with
+  | 0, 0, 0 | 0, 1, 1 => 1c
+  | 1, 0, 1 | 1, 1, 0 => 1c
+  | 2, 0, 1 => (0%R, (-1)%R) | 2, 1, 0 => mI
+  | 3, 0, 0 => 1c | 3, 1, 1 => ((-1)%R, 0%R)
+  | _, _, _ => 0c
+  end.
+Definition nrmP (n : nat) : Cx := cofr RO (Rinv (sqrt (INR (2 ^ n)))).
 
-Definition pauli_basis : list MatR :=
-  [ [[(sP, 0); (0, 0)]; [(0, 0); (sP, 0)]];        (* 1/sqrt2 *)
-    [[(0, 0); (sP, 0)]; [(sP, 0); (0, 0)]];        (* X/sqrt2 *)
-    [[(0, 0); (0, - sP)]; [(0, sP); (0, 0)]];      (* Y/sqrt2 *)
-    [[(sP, 0); (0, 0)]; [(0, 0); (- sP, 0)]] ].    (* Z/sqrt2 *)
-Definition pauli_Cb : nat -> fmat := fun k => toF (nthm pauli_basis k).
-
-Ltac four k := destruct k as [|[|[|[|k]]]]; [ | | | | exfalso; lia].
-Ltac two i := destruct i as [|[|i]]; [ | | exfalso; lia].
-
-Lemma pauli_herm : basis_herm 2 4 pauli_Cb.
-Proof. intros k Hk i j Hi Hj. four k; two i; two j; apply c_eq; csimp; ring. Qed.
-
-Lemma pauli_orthonormal : basis_orthonormal 2 4 pauli_Cb.
+Lemma sigmaP0 : feq 2 (sigmaP 0) fid.
+Proof. intros i j Hi Hj. destruct i as [|[|i]]; try lia; destruct j as [|[|j]]; try lia; reflexivity. Qed.
+Lemma sigmaP_orth a b : a < 4 -> b < 4 ->
+  ftr 2 (fmul 2 (fadj (sigmaP a)) (sigmaP b)) = if Nat.eqb a b then (2%R, 0%R) else 0c.
 Proof.
-  intros k l Hk Hl. four k; four l; apply c_eq; unfold ftr, fmul, pauli_Cb, toF, mget, nthm; csimp;
-    ring_simplify; try (rewrite ?sP_sq; lra); try (replace (sP ^ 2) with (/2) by (simpl; rewrite Rmult_1_r; symmetry; apply sP_sq); lra).
+  intros Ha Hb. destruct a as [|[|[|[|a]]]]; try lia; destruct b as [|[|[|[|b]]]]; try lia;
+    unfold ftr, fmul, fadj; simpl; apply c_eq; simpl; ring.
+Qed.
+Lemma pow2_pos n : (0 < INR (2 ^ n))%R.
+Proof. apply lt_0_INR. apply pow_pos. lia. Qed.
+Lemma nrmP_mult m r : nrmP (m + r) = cmul' (nrmP m) (nrmP r).
+Proof.
+  unfold nrmP. rewrite Nat.pow_add_r, mult_INR. rewrite sqrt_mult by (apply Rlt_le, pow2_pos).
+  pose proof (sqrt_lt_R0 _ (pow2_pos m)). pose proof (sqrt_lt_R0 _ (pow2_pos r)).
+  apply c_eq; csimp; field; split; lra.
+Qed.
+Lemma nrmP_norm n : cmul' (cmul' (cconj' (nrmP n)) (nrmP n)) (cofr RO (INR (2 ^ n))) = 1c.
+Proof.
+  unfold nrmP. pose proof (pow2_pos n) as P. pose proof (sqrt_lt_R0 _ P) as S.
+  pose proof (sqrt_sqrt _ (Rlt_le _ _ P)) as E.
+  apply c_eq; csimp; [|ring].
+  replace (/ sqrt (INR (2 ^ n)) * / sqrt (INR (2 ^ n)) - - 0 * 0)%R with (/ (sqrt (INR (2 ^ n)) * sqrt (INR (2 ^ n))))%R
+    by (field; lra).
+  rewrite E. field. lra.
 Qed.
 
-Lemma pauli_complete : basis_complete 2 4 pauli_Cb.
+(* consequently: product structure, first element and orthonormality of the concrete Pauli basis, every n *)
+Theorem pauliP_product m r basis : basis_is_pauli sigmaP nrmP (m + r) basis -> forall k l, k < 4 ^ m -> l < 4 ^ r ->
+  ExtendKron.krel (2 ^ m) (2 ^ r) (nthm (pauli_list sigmaP nrmP m) k) (nthm (pauli_list sigmaP nrmP r) l) (nthm basis (k * 4 ^ r + l)).
+Proof. apply pauli_product_krel. apply nrmP_mult. Qed.
+Theorem pauliP_onb n l m : l < 4 ^ n -> m < 4 ^ n ->
+  mtrprod RO (2 ^ n) (madj RO (2 ^ n) (nthm (pauli_list sigmaP nrmP n) l)) (nthm (pauli_list sigmaP nrmP n) m)
+  = if Nat.eqb l m then 1c else 0c.
+Proof. apply pauli_list_onb. apply sigmaP_orth. apply nrmP_norm. Qed.
+Theorem pauliP_first n : feq (2 ^ n) (toF (nthm (pauli_list sigmaP nrmP n) 0)) (fscal (cofr RO (Rinv (sqrt (INR (2 ^ n))))) fid).
 Proof.
-  intros X i j Hi Hj. unfold fsum, fscal, fid, ftr, fmul, pauli_Cb, toF, mget, nthm.
-  two i; two j; apply c_eq; csimp; ring_simplify;
-    replace (sP ^ 2) with (/2) by (simpl; rewrite Rmult_1_r; symmetry; apply sP_sq); lra.
-Qed.
-
-(* ---------- refutation witness: control matrix with an identity component ---------- *)
-(* B_{0,k}(w) = 1 for k = 0 (the basis element proportional to the identity), 0 otherwise;
-   two frequencies 0, 1; white spectrum S = 1 *)
-Definition Bw : A3r := [[ [(1,0); (1,0)]; [(0,0); (0,0)]; [(0,0); (0,0)]; [(0,0); (0,0)] ]].
-Definition spw : spectrumR := Sp1 [(1,0); (1,0)].
-Definition omw : list R := [0; 1].
-
-Lemma Gamma_w k l : (k < 4)%nat -> (l < 4)%nat ->
-  Gamma Bw Bw [0%nat] spw 2 omw 0 0 k l = if (Nat.eqb k 0 && Nat.eqb l 0)%bool then / (2 * PI) else 0.
-Proof.
-  intros Hk Hl. unfold Gamma, trapz_w. simpl sumn.
-  four k; four l; unfold a3get, sel, spec_at, Bw, spw, omw; csimp; field; generalize PI_RGT_0; lra.
-Qed.
-
-Lemma pauli_traces k : (1 <= k < 4)%nat -> ftr 2 (pauli_Cb k) = 0c.
-Proof. intros Hk. destruct k as [|[|[|[|k]]]]; try lia; apply c_eq; unfold ftr, pauli_Cb, toF, mget, nthm; csimp; ring. Qed.
-
-Theorem traceless_branch_refuted :
-  exists (basis : list MatR) (Bm : A3r) (sp : spectrumR) (omega : list R),
-    let d := 2%nat in let n := length basis in let Cb := fun k => toF (nthm basis k) in
-    basis_herm d n Cb /\ basis_orthonormal d n Cb /\ basis_complete d n Cb /\
-    (forall k, (1 <= k < n)%nat -> ftr d (Cb k) = 0c) /\
-    let G := rmbuild n n (fun k l => Gamma Bm Bm [0%nat] sp 2 omega 0 0 k l) in
-    let Tr := a4get RO (four_traces_arr RO d (pair_products RO d basis) n) in
-    nth 0 (infidelity_total RO d true 1 n 2 Bm basis [0%nat] sp omega) 0 <>
-    - sumn' n (fun m => cumulant_general_fn RO n Tr false G G m m) / (INR d * INR d).
-Proof.
-  exists pauli_basis, Bw, spw, omw. cbv zeta.
-  split. exact pauli_herm. split. exact pauli_orthonormal. split. exact pauli_complete.
-  split. exact pauli_traces.
-  change (length pauli_basis) with 4%nat.
-  pose proof (infidelity_traceless_excess 2 pauli_basis ltac:(lia) pauli_herm pauli_orthonormal pauli_complete
-                1 4 2 Bw [0%nat] spw omw eq_refl) as H.
-  assert (Hidx : idx_ok 1 [0%nat]) by (intros i Hi; simpl in Hi; destruct i; unfold sel; simpl; lia).
-  specialize (H Hidx eq_refl 0%nat 0%nat
-                (rmbuild 4 4 (fun k l => Gamma Bw Bw [0%nat] spw 2 omw 0 0 k l))
-                ltac:(simpl; lia) ltac:(simpl; lia) (fun _ => eq_refl)).
-  change (lead_pos spw (length [0%nat]) 0 0) with 0%nat in H.
-  change (length pauli_basis) with 4%nat in H.
-  rewrite H. clear H.
-  set (K := sumn' 4 _).
-  assert (HGT : GT 2 pauli_basis (rmbuild 4 4 (fun k l => Gamma Bw Bw [0%nat] spw 2 omw 0 0 k l)) = / PI).
-  { unfold GT. change (length pauli_basis) with 4%nat.
-    simpl sumn. unfold rmget, rmbuild. rewrite !nth_build by lia.
-    rewrite !Gamma_w by lia. simpl andb. cbv iota.
-    unfold trb, tC, ftr, toF, mget, nthm, pauli_basis. csimp.
-    generalize sP_sq PI_RGT_0. intros Hs Hp. field_simplify; try lra.
-    replace (sP ^ 2) with (/2) by (simpl; rewrite Rmult_1_r; auto). field. lra. }
-  rewrite HGT. simpl INR.
-  assert (0 < / PI / ((1 + 1) * (1 + 1))).
-  { apply Rdiv_lt_0_compat. apply Rinv_0_lt_compat, PI_RGT_0. lra. }
-  lra.
+  destruct (pauli_list_is_pauli sigmaP nrmP n) as [_ HB].
+  eapply feq_trans. apply HB. apply pow_pos; lia. apply (pauli_el_first sigmaP nrmP sigmaP0 n).
 Qed.
